@@ -143,6 +143,11 @@ def run(ctx):
         "all other ranks' elements touching an owned node and the group from unique(owned + ghost); Merge maps nodes with the same offsets it shifted the connectivities with. "
         "NOT decided: that gmsh's partition is a partition, reproducibility, sufficiency of the ghost layer on mixed-type meshes, anything under real MPI."
     )
+    # 'keeps global node numbering ... merging / saving and loading partition data is the inverse bookkeeping'
+    from . import c15 as _c15
+
+    _c15.mesh_roundtrip_rule(ctx, "R20.8")
+    owned_union_rule(ctx)
     simu = repo.cls(SIMU)
 
     r1 = ctx.rule("R20.1", "owned-row restriction: Calc_Energy / Calc_Reaction index the vector and the operator rows by the owned dofs and reduce; Get_dofs selects the owned nodes under MPI", min_instances=4)
@@ -434,3 +439,35 @@ def table_scope_rule(ctx):
             r.ok(f"{f.name}: single call, table `{arg.id}`")
         else:
             r.ok(f"{f.name}: `{arg.id}` is created before the loop over element types")
+
+
+
+def owned_union_rule(ctx):
+    """R20.9: a node owned by the rank through two element groups (an interface node of a TRI3 + QUAD4 mesh) is owned once.
+    Mesh._Get_mpi_owned_nodes is interpreted on two groups whose owned-node lists overlap; Get_dofs builds the owned dofs
+    from it, so a repeated node would count its rows twice in every owned-row sum."""
+    from types import SimpleNamespace
+
+    from ..xeval import Interp, XObj, XRaise
+    from ..xarray import XArray
+
+    repo = ctx.repo
+    r = ctx.rule("R20.9", "owned nodes of a multi-group mesh: the union over the groups without repetition (a node owned through two groups is listed once), sorted", min_instances=2)
+    mcls = repo.cls("EasyFEA.FEM._mesh.Mesh")
+    f = mcls.methods["_Get_mpi_owned_nodes"]
+    for lists in ([[0, 3, 5, 8], [3, 4, 8, 9]], [[2, 7], [1, 2], [7, 11]]):
+        r.instance(fn=f.qualname)
+        groups = [SimpleNamespace(_Get_partitioned_data=lambda l=l: (0, XArray((1,), [0]), XArray((0,), []), XArray((len(l),), list(l)), XArray((0,), []))) for l in lists]
+        obj = XObj(mcls, dict(dim=2, Get_list_groupElem=lambda d=None: list(groups)))
+        I = Interp(repo)
+        try:
+            out = XArray.from_nested(I.call_function(f, [], self_obj=obj))
+        except XRaise as e:
+            r.fail(f.qualname, "owned-union", f.file, f.lineno, "Mesh._Get_mpi_owned_nodes", f"raises {e}")
+            continue
+        got = [int(x) for x in out.data]
+        want = sorted({x for l in lists for x in l})
+        if got == want:
+            r.ok(f"groups owning {lists} -> {want}")
+        else:
+            r.fail(f.qualname, "owned-union", f.file, f.lineno, "Mesh._Get_mpi_owned_nodes", f"groups owning {lists} give {got}, expected {want}: an interface node owned through two element types is listed twice, its dofs are counted twice in the owned-row energies / reactions")
